@@ -37,6 +37,7 @@ import (
 	"strings"
 	"sync"
 	"testing"
+	"unsafe"
 
 	"github.com/zitadel/oidc/v3/pkg/client"
 	"github.com/zitadel/oidc/v3/pkg/client/rp"
@@ -182,8 +183,19 @@ func (ck *checker) digestStorage() rootDigests {
 
 func (ck *checker) digestInsts() rootDigests {
 	out := rootDigests{}
+	// objects with an owner of their own are not walked again through an instance
+	stop := map[unsafe.Pointer]string{}
+	for _, g := range ck.s.gv {
+		if rv := reflect.ValueOf(g.ptr).Elem(); rv.Kind() == reflect.Pointer && !rv.IsNil() {
+			stop[rv.UnsafePointer()] = g.root
+		}
+	}
+	for _, su := range ck.w.Supplied {
+		stop[reflect.ValueOf(su.Ptr).UnsafePointer()] = "supplied:" + su.Name
+	}
 	for _, i := range ck.w.Insts {
 		d := world.NewDigest()
+		d.Stop = stop
 		d.Root("inst:"+i.Name, &i.Obj)
 		ck.s.st.merge(d)
 		out[i.Name] = d.Leaves
@@ -227,58 +239,79 @@ func (ck *checker) harnessStorage(f func()) {
 	}
 }
 
-func firstDiff(before, after rootDigests) (root string, rendered []string) {
+// allDiffs returns, per root present before and after, the rendered differences.
+func allDiffs(before, after rootDigests) (roots []string, rendered map[string][]string) {
+	rendered = map[string][]string{}
 	for _, r := range world.SortedKeys(before) {
 		a, ok := after[r]
 		if !ok {
 			continue // object gone (not a write)
 		}
 		if _, ren := world.Diff(before[r], a); len(ren) > 0 {
-			return r, ren
+			roots = append(roots, r)
+			rendered[r] = ren
 		}
 	}
-	return "", nil
+	return
 }
 
 var instField = regexp.MustCompile(`^(?:\.\*)?\.([A-Za-z_][A-Za-z0-9_]*)`)
 
-// frame compares all digests with the ones taken before the step and adopts the new ones.
-func (ck *checker) frame() *finding {
-	var f *finding
+// frame compares all digests with the ones taken before the step, adopts the new
+// ones and returns one finding per changed object (globals first).
+func (ck *checker) frame() []*finding {
+	var fs []*finding
 	g := ck.s.digestGlobals()
 	if paths, ren := world.Diff(ck.glob, g); len(paths) > 0 {
-		cls := "?"
-		for _, gv := range ck.s.gv {
-			if strings.HasPrefix(paths[0], gv.root) && (len(paths[0]) == len(gv.root) || strings.ContainsAny(paths[0][len(gv.root):len(gv.root)+1], ".[")) {
-				cls = gv.class
+		byVar := map[string][]string{}
+		var order []string
+		for i, p := range paths {
+			for _, gv := range ck.s.gv {
+				if strings.HasPrefix(p, gv.root) && (len(p) == len(gv.root) || strings.ContainsAny(p[len(gv.root):len(gv.root)+1], ".[")) {
+					if byVar[gv.root] == nil {
+						order = append(order, gv.root)
+					}
+					byVar[gv.root] = append(byVar[gv.root], ren[i])
+				}
 			}
 		}
-		f = &finding{"hidden-write", cls, "package-level variable changed: " + strings.Join(head(ren, 4), "; ")}
+		for _, root := range order {
+			cls := "?"
+			for _, gv := range ck.s.gv {
+				if gv.root == root {
+					cls = gv.class
+				}
+			}
+			fs = append(fs, &finding{"hidden-write", cls, "package-level variable changed: " + strings.Join(head(byVar[root], 4), "; ")})
+		}
 	}
 	su := ck.digestSupplied()
-	if r, ren := firstDiff(ck.supplied, su); f == nil && r != "" {
+	roots, ren := allDiffs(ck.supplied, su)
+	for _, r := range roots {
 		cls := "?"
 		for _, x := range ck.w.Supplied {
 			if x.Name == r {
 				cls = x.Class
 			}
 		}
-		f = &finding{"hidden-write", cls, "caller-supplied object changed: " + strings.Join(head(ren, 4), "; ")}
+		fs = append(fs, &finding{"hidden-write", cls, "caller-supplied object changed: " + strings.Join(head(ren[r], 4), "; ")})
 	}
 	st := ck.digestStorage()
-	if r, ren := firstDiff(ck.storage, st); f == nil && r != "" {
-		f = &finding{"hidden-write", "op.DeviceAuthorizationState", "storage-owned state changed by the library: " + strings.Join(head(ren, 4), "; ")}
+	roots, ren = allDiffs(ck.storage, st)
+	for _, r := range roots {
+		fs = append(fs, &finding{"hidden-write", "op.DeviceAuthorizationState", "storage-owned state changed by the library: " + strings.Join(head(ren[r], 4), "; ")})
 	}
 	in := ck.digestInsts()
-	if r, ren := firstDiff(ck.inst, in); f == nil && r != "" {
+	roots, ren = allDiffs(ck.inst, in)
+	for _, r := range roots {
 		cls := ck.w.Inst(r).Kind + ".?"
-		if m := instField.FindStringSubmatch(strings.TrimPrefix(ren[0], "inst:"+r)); m != nil {
+		if m := instField.FindStringSubmatch(strings.TrimPrefix(strings.SplitN(ren[r][0], ": ", 2)[0], "inst:"+r)); m != nil {
 			cls = ck.w.Inst(r).Kind + "." + m[1]
 		}
-		f = &finding{"unsynchronised-instance-write", cls, "field of a shared instance written outside any mutex-holding struct: " + strings.Join(head(ren, 4), "; ")}
+		fs = append(fs, &finding{"unsynchronised-instance-write", cls, "field of a shared instance written outside any mutex-holding struct: " + strings.Join(head(ren[r], 4), "; ")})
 	}
 	ck.glob, ck.supplied, ck.storage, ck.inst = g, su, st, in
-	return f
+	return fs
 }
 
 func head(s []string, n int) []string {
@@ -288,12 +321,15 @@ func head(s []string, n int) []string {
 	return s
 }
 
-// differential compares every instance with its fresh-history reference.
-func (ck *checker) differential() *finding {
+// differential compares every instance with its fresh-history reference and
+// returns one finding per (instance kind, aspect class) that differs.
+func (ck *checker) differential() []*finding {
+	var fs []*finding
+	seen := map[string]bool{}
 	for _, i := range ck.w.Insts {
 		ref, ok := ck.s.refs[i.Ref]
 		if !ok {
-			return &finding{"internal", "", "no reference behaviour for " + i.Ref}
+			return []*finding{{"internal", "", "no reference behaviour for " + i.Ref}}
 		}
 		got := ck.w.Behaviour(i)
 		for _, k := range world.SortedKeys(ref) {
@@ -302,12 +338,17 @@ func (ck *checker) differential() *finding {
 				if i.Kind == "provider" || i.Kind == "legacy" {
 					kind = "provider"
 				}
-				return &finding{"behaviour-changed", kind + ":" + strings.SplitN(k, ":", 2)[0],
-					fmt.Sprintf("instance %s (%s) aspect %s: fresh history %s, this history %s", i.Name, i.Ref, k, clip(ref[k]), clip(got[k]))}
+				cls := kind + ":" + strings.SplitN(k, ":", 2)[0]
+				if seen[cls] {
+					continue
+				}
+				seen[cls] = true
+				fs = append(fs, &finding{"behaviour-changed", cls,
+					fmt.Sprintf("instance %s (%s) aspect %s: fresh history %s, this history %s", i.Name, i.Ref, k, clip(ref[k]), clip(got[k]))})
 			}
 		}
 	}
-	return nil
+	return fs
 }
 
 func clip(s string) string {
@@ -342,12 +383,25 @@ func (s *server) runInBubble(req request) reply {
 	}
 	ck := &checker{s: s, w: w}
 	w.OnHarnessStorage = ck.harnessStorage
-	mk := func(rule, entry string, f *finding) reply {
-		if f.what == "internal" {
-			return reply{Err: f.detail}
+	known := map[string]bool{}
+	for _, k := range req.Known {
+		known[k] = true
+	}
+	// one result per sequence: the first finding of the step whose signature is not
+	// listed as known (a known finding must not shadow a new one), else the first
+	mk := func(rule, entry string, fs []*finding) reply {
+		pick := fs[0]
+		for _, f := range fs {
+			if f.what == "internal" {
+				return reply{Err: f.detail}
+			}
+			if !known["C20/"+f.what+"/"+entry+"/"+f.class] {
+				pick = f
+				break
+			}
 		}
-		return reply{Rule: rule, Outcome: f.what, Sig: "C20/" + f.what + "/" + entry + "/" + f.class,
-			Detail: fmt.Sprintf("after %v: %s", req.Seq, f.detail)}
+		return reply{Rule: rule, Outcome: pick.what, Sig: "C20/" + pick.what + "/" + entry + "/" + pick.class,
+			Detail: fmt.Sprintf("after %v: %s (%d object(s)/aspect(s) differ in this step)", req.Seq, pick.detail, len(fs))}
 	}
 	rule := req.Oracle + "/base-world"
 	last := "ok"
@@ -356,11 +410,11 @@ func (s *server) runInBubble(req request) reply {
 	case "frame":
 		ck.glob = s.pristine
 		ck.supplied, ck.storage, ck.inst = rootDigests{}, rootDigests{}, rootDigests{}
-		if f := ck.frame(); f != nil {
+		if f := ck.frame(); len(f) > 0 {
 			return mk(rule, "base-world(default constructors)", f)
 		}
 	case "diff":
-		if f := ck.differential(); f != nil {
+		if f := ck.differential(); len(f) > 0 {
 			return mk(rule, "base-world(default constructors)", f)
 		}
 	}
@@ -375,11 +429,11 @@ func (s *server) runInBubble(req request) reply {
 		}
 		switch req.Oracle {
 		case "frame":
-			if f := ck.frame(); f != nil {
+			if f := ck.frame(); len(f) > 0 {
 				return mk(rule, o.Entry, f)
 			}
 		case "diff":
-			if f := ck.differential(); f != nil {
+			if f := ck.differential(); len(f) > 0 {
 				return mk(rule, o.Entry, f)
 			}
 		}
@@ -669,6 +723,21 @@ func TestCheck(t *testing.T) {
 		"race supplement: free-running under the Go race detector; a report is a violation, silence is NOT a proof of race freedom",
 	)
 
+	// the signatures listed as known (read-only; the engine matches them again by exact signature)
+	var knownSigs []string
+	if b, err := os.ReadFile(filepath.Join(c.Root, "known_findings", "C20.json")); err == nil {
+		var kf struct {
+			Findings []struct{ Signature, Status string }
+		}
+		if json.Unmarshal(b, &kf) == nil {
+			for _, f := range kf.Findings {
+				if f.Status == "known" {
+					knownSigs = append(knownSigs, f.Signature)
+				}
+			}
+		}
+	}
+
 	var raceWG sync.WaitGroup
 	raceWG.Add(1)
 	go func() { defer raceWG.Done(); racePass(c) }()
@@ -726,7 +795,7 @@ func TestCheck(t *testing.T) {
 				ev := evaluator(c)
 				return func(v engine.Vec) engine.Result {
 					oracle, seq := space[0].Vals[v[0]], seqOf(v)
-					r := ev(request{Oracle: oracle, Seq: seq})
+					r := ev(request{Oracle: oracle, Seq: seq, Known: knownSigs})
 					if r.Sig != "" {
 						vmu.Lock()
 						violated[key(oracle, seq)] = true
